@@ -28,5 +28,46 @@ package bastion
 //@                    && str(body) == fmt_du(cpSize(text(upd_out))) ++ "\n" && upd_out == old(st_val[theStore()][logID])
 //@   ensures[C10.409r] upd_err == witness.ErrRootMismatch ==> rerr == nil && sc == 409 && ct == "" && len(body) == 0
 //@   ensures[C10.422] upd_err == witness.ErrInvalidProof  ==> rerr == nil && sc == 422 && len(body) == 0
+//@   ensures[C10.404] (upd_err == witness.ErrUnknownLog ==> rerr == nil && sc == 404) && (rerr == nil && sc == 404 ==> upd_err == witness.ErrUnknownLog)
 //@   ensures[C10.500] upd_err != nil && !isSentinel(upd_err) ==> rerr != nil
 //@   ensures[C10.cod] rerr == nil ==> sc == 200 || sc == 400 || sc == 403 || sc == 404 || sc == 409 || sc == 422 || sc == 500
+
+// parseBody: structural contract used by ServeHTTP (the text-format contract proper is C11's).
+//@ func parseBody
+//@   returns (size, proof, cp, err)
+//@   modifies rd_buf
+//@   ghostmodifies n_pb
+//@   ensures[ghost] n_pb == old(n_pb) + 1
+//@   // refused input is not partly understood: nothing is returned with an error
+//@   ensures[C11.z,C10.z] err != nil ==> size == 0 && proof == nil && cp == nil
+//@   ensures[C11.z,C10.z] err == nil ==> cp != nil
+//@   invariant#1 true
+
+//@ func (*addHandler).ServeHTTP
+//@   let allowed  := allow_ok
+//@   let parsed   := n_pb == old(n_pb) + 1
+//@   let updated  := n_upd == old(n_upd) + 1
+//@   requires a != nil && a.w != nil && a.limiter != nil && a.logs != nil && r != nil && r.Body != nil && w != nil && n_wh == 0
+//@   requires a.witVerifier == witV()
+//@   // the handler's log table files each log under the ID of its origin (established by FeedBastion from config.NewLog's IDs)
+//@   requires forall k string :: k in a.logs ==> a.logs[k].Origin == originFor(k)
+//@   modifies n_wo, wo_err, wo_h, n_gl, gl_err, gl_val, gl_h, n_set, set_err, set_arg, set_h, n_close, close_h, n_commit
+//@   modifies n_sign, sign_err, sign_out, sign_n, st_has, st_val, cnt, n_upd, upd_id, upd_old, upd_cp, upd_proof, upd_out, upd_err
+//@   modifies n_allow, allow_ok, n_pb, rd_buf, n_wh, wh_code, n_write, body_out, n_hdr, hdr_key, hdr_val
+//@   // always exactly one status line, one of the documented codes
+//@   ensures[C10.one,C19.one] n_wh == 1 && (wh_code == 200 || wh_code == 400 || wh_code == 403 || wh_code == 404 || wh_code == 409 || wh_code == 422 || wh_code == 429 || wh_code == 500)
+//@   // over the rate: 429 without reading the body or touching the witness
+//@   ensures[C10.429] n_allow == old(n_allow) + 1 && (!allowed ==> wh_code == 429 && !parsed && n_upd == old(n_upd) && rd_buf == old(rd_buf))
+//@   // the witness is asked at most once, for the ID of the first line of the submitted checkpoint, and only for a log in the table
+//@   ensures[C10.upd,C12.id] n_upd <= old(n_upd) + 1 && (updated ==> allowed && parsed && hasSep(str(upd_cp), "\n") && upd_id == ID(before(str(upd_cp), "\n")) && upd_id in a.logs)
+//@   ensures[C10.404] allowed && wh_code == 404 ==> !updated || upd_err == witness.ErrUnknownLog
+//@   // the answer follows the witness's verdict
+//@   ensures[C10.map] updated && upd_err == nil && nsig(upd_out) <= 100 ==> wh_code == 200 && n_write == old(n_write) + 1
+//@                    && str(body_out) == "— " ++ sig0Name(upd_out, witV()) ++ " " ++ sig0B64(upd_out, witV()) ++ "\n"
+//@   ensures[C10.map] wh_code == 200 ==> updated && upd_err == nil
+//@   ensures[C10.map] updated && upd_err == witness.ErrNoValidSignature ==> wh_code == 403
+//@   ensures[C10.map] updated && upd_err == witness.ErrOldSizeInvalid ==> wh_code == 400
+//@   ensures[C10.map] updated && upd_err == witness.ErrCheckpointStale ==> wh_code == 409 && n_hdr == old(n_hdr) + 1 && hdr_key == "Content-Type" && hdr_val == "text/x.tlog.size"
+//@                    && str(body_out) == fmt_du(cpSize(text(upd_out))) ++ "\n"
+//@   ensures[C10.map] updated && upd_err == witness.ErrRootMismatch ==> wh_code == 409 && n_hdr == old(n_hdr)
+//@   ensures[C10.map] updated && upd_err == witness.ErrInvalidProof ==> wh_code == 422
